@@ -61,14 +61,17 @@ def hdr_fields(data):
     return dict(code=code, decl=big(decl), acc=big(acc))
 
 
-def wrap_socket(sock, log, who):
+def wrap_socket(sock, log, who, slow=0.0):
     send, recv = sock.send, sock.recv
+    import time as real_time
 
     def wsend(data, flags=0):
         log.add(who + "Send", n=len(data), **hdr_fields(data))       # logged before the data can be received
         return send(data, flags)
 
     def wrecv():
+        if slow:
+            real_time.sleep(slow)          # a host that reads slower than the link delivers: the window must hold
         d = recv()
         if d is not None:
             log.add(who + "Recv", n=len(d))                           # logged after it was received
@@ -100,7 +103,7 @@ def run_snep(cfg):
     try:
         class Server(nfc.snep.SnepServer):
             def _serve(self, client_socket):
-                wrap_socket(client_socket, log, "S")
+                wrap_socket(client_socket, log, "S", cfg.get("slow_s", 0.0))
                 state["sm"] = client_socket.getsockopt(nfc.llcp.SO_SNDMIU)
                 try:
                     nfc.snep.SnepServer._serve(self, client_socket)
@@ -145,7 +148,7 @@ def run_snep(cfg):
                             break
                         time.sleep(0.001)
                     log.add("Conn", n=cl.send_miu, decl=state.pop("sm", 0))
-                    wrap_socket(s, log, "C")
+                    wrap_socket(s, log, "C", cfg.get("slow_c", 0.0))
                 for i, (kind, L) in enumerate(cfg["reqs"]):
                     if cl.socket is None:
                         connect()
@@ -225,6 +228,17 @@ def gen_cfgs(tier, seed):
                 L = 3
             sizes.append(L)
         reqs = [(rnd.choice(["PUT", "PUT", "GET"]), L) for L in sizes]
+        slow_c = slow_s = 0.0
+        if i % 5 == 4:
+            # long transfers: more than 16 fragments on one connection (the sequence numbers wrap) towards a
+            # host that reads slowly, with a small receive window
+            lm_s, lm_c, srv_miu, cli_miu = rnd.choice([128, 2175]), rnd.choice([128, 2175]), 128, 128
+            cm = sm = 128
+            sizes = [rnd.randint(17, 26) * 128 + rnd.randint(-9, 7), rnd.choice([0, 3, 100, 18 * 128])]
+            reqs = [(rnd.choice(["PUT", "GET"]), L) for L in sizes]
+            slow_c, slow_s = rnd.choice([0.0, 0.004]), rnd.choice([0.0, 0.004])
+            if not (slow_c or slow_s):
+                slow_c = 0.004
         biggest = max(sizes)
         max_acc = rnd.choice([0x100000, 0x100000, biggest + rnd.randint(-8, 12), biggest + 6])
         acc = rnd.choice([1024 * 64, 1024 * 64, biggest + rnd.randint(-6, 6), max(0, biggest - 1)])
@@ -232,6 +246,7 @@ def gen_cfgs(tier, seed):
                         link_srv=dict(miu=lm_s, lto=rnd.choice([100, 500, 1000]), agf=rnd.random() < 0.6),
                         link_cli=dict(miu=lm_c, lto=rnd.choice([100, 500]), agf=rnd.random() < 0.6),
                         srv_miu=srv_miu, srv_rw=rnd.choice([1, 2, 15]), cli_miu=cli_miu, cli_rw=rnd.choice([1, 2, 7]),
+                        slow_c=slow_c, slow_s=slow_s,
                         max_acc=max(0, max_acc), acc=max(0, acc), reqs=reqs, persistent=rnd.random() < 0.5))
     return out
 
